@@ -6,7 +6,7 @@ for spec in "$@"; do
   id="${spec%%:*}"; props="${spec#*:}"
   for p in ${props//,/ }; do
     echo "=== $id $p" >> "$out"
-    /verif/tools/try_seed.sh /tmp/seeded_out2/$id/patch.diff $p 2>&1 | grep -E "VIOLATION|UNDECIDED|KNOWN|HELD|VIOLATED|exit=|patch|repo not clean" | cut -c1-700 >> "$out"
+    /verif/tools/try_seed.sh ${SEED_DIR:-/tmp/seeded_out2}/$id/patch.diff $p 2>&1 | grep -E "VIOLATION|UNDECIDED|KNOWN|HELD|VIOLATED|exit=|patch|repo not clean" | cut -c1-700 >> "$out"
   done
 done
 echo DONE >> "$out"
